@@ -338,6 +338,23 @@ def apply_event(W, ev):
             app = cell.apps.get(name)
             if app is not None:
                 new.restore(app, W.expiry.get(int(name[-10:])))
+    elif kind == 'reload_cell':
+        # the 'cell' event of the master: real Loader.load_cell on the
+        # buckets and cell of this world (top-level bucket list unchanged, or
+        # without the buckets named in ev[1])
+        from treadmill.scheduler import loader as _loader
+        drop = set(ev[1]) if len(ev) > 1 else set()
+        tops = [n for n, _l, parent in TOPOS[W.spec['topo']][0]
+                if parent is None and n not in drop]
+
+        class _Backend:
+            def list(self, _path):
+                return list(tops)
+        ld = _loader.Loader.__new__(_loader.Loader)
+        ld.backend = _Backend()
+        ld.cell = cell
+        ld.buckets = W.buckets
+        ld.load_cell()
     elif kind == 'set_priority':
         i = ev[1]
         W.apps[i].priority = S.int('ev_prio', 0, 100)
@@ -619,10 +636,33 @@ def c04_oracle(W, tag='', assume=False):
                         {'node': node.name, 'affinity': aff,
                          'counter': node.affinity_counters[aff],
                          'true': true[aff]})
+        placed = [app for srv in node.members().values()
+                  for app in srv.apps.values()]
+
+        def _declared(app):
+            return (W.spec['apps'][int(app.name[-10:])].get('limits')
+                    or {}).get(node.level)
         for srv in node.members().values():
             for app in srv.apps.values():
-                limit = app.affinity.limits[node.level]
-                ok = true[app.affinity.name] <= limit
+                # the limit the instance DECLARES (spec), not what the object
+                # under test carries
+                limit = _declared(app)
+                if limit is None:
+                    continue
+                if not assume:
+                    S.check('C04:declared_limit_changed' + tag,
+                            app.affinity.limits[node.level] == limit,
+                            {'app': app.name, 'level': node.level,
+                             'declared': limit,
+                             'object': app.affinity.limits[node.level]})
+                # instances of one affinity may declare different values
+                # (the scheduler checks the newcomer's): the count is bounded
+                # by the loosest limit declared among those placed here
+                others = [_declared(o) for o in placed
+                          if o.affinity.name == app.affinity.name]
+                if any(o is None for o in others):
+                    continue
+                ok = true[app.affinity.name] <= max(others)
                 if assume:
                     S.assume(ok)
                 else:
